@@ -68,6 +68,7 @@ impl FromStr for Signature {
 
     fn from_str(s: &str) -> Result<Self, Self::Err> {
         let mut signature = [0; 65];
+        let s = s.strip_prefix("0x").unwrap_or(s);
         hex::decode_to_slice(s, &mut signature)?;
 
         let v = signature[64];
